@@ -9,8 +9,8 @@ _ASSUME = ['UBSan alignment and vptr checks are off (calc_chksum reads unaligned
 def _parts(prop, qv, tv, perm=0):
     return [
         dict(name='utest', harness='codec_lattice', variant='san',
-             quick=dict(args=['prop=' + prop, 'schema=utest', 'vmax=%d' % qv[0], 'orders=%d' % qv[1], 'nelems=1,2,0', 'perm=%d' % perm], deadline=100),
-             thorough=dict(args=['prop=' + prop, 'schema=utest', 'vmax=18', 'orders=3', 'nelems=1,2,0', 'perm=%d' % (perm and perm + 1)], deadline=800)),
+             quick=dict(args=['prop=' + prop, 'schema=utest', 'vmax=%d' % qv[0], 'orders=%d' % qv[1], 'nelems=1,2,0', 'perm=%d' % perm, 'lensweep=1200'], deadline=100),
+             thorough=dict(args=['prop=' + prop, 'schema=utest', 'vmax=18', 'orders=3', 'nelems=1,2,0', 'perm=%d' % (perm and perm + 1), 'lensweep=2000'], deadline=800)),
         dict(name='fix44', harness='codec_lattice', variant='san',
              quick=dict(args=['prop=' + prop, 'schema=fix44', 'vmax=%d' % tv[0], 'orders=%d' % tv[1], 'nelems=1,2', 'perm=%d' % perm], deadline=100),
              thorough=dict(args=['prop=' + prop, 'schema=fix44', 'vmax=18', 'orders=3', 'nelems=1,2,0', 'perm=%d' % (perm and perm + 1)], deadline=800)),
@@ -19,7 +19,9 @@ def _parts(prop, qv, tv, perm=0):
 
 _RULE = ('lattice point = (schema, message type, shape, value index, group element count, insertion order); shapes: mandatory only / all members / '
          'mandatory + each single optional member (header, body, trailer); value index i gives every field the i-th member of its type alphabet '
-         '(indices >= 9: rotated by field position); every point is distinct; non-trivial = the message contains at least one populated repeating group')
+         '(indices >= 9: rotated by field position); every point is distinct; non-trivial = the message contains at least one populated repeating group; '
+         'length sweep (C01, C02): NewOrderSingle with all members and Text(58) of every length 1..lensweep, so that the body takes every length across the BodyLength digit thresholds; '
+         'C11 additionally: every message with float fields once more with a five-decimal value and explicit precision 5 set through the typed interface')
 
 check('C01',
       title='Message encode/decode round trip preserves every field',
